@@ -235,7 +235,7 @@ zix_copy_file(ZixAllocator* const  allocator,
   // Copy file content one buffer at a time
   st = copy_blocks(src_fd, dst_fd, buffer, buffer_size);
 
-  zix_aligned_free(NULL, block);
+  zix_aligned_free(allocator, block);
   return finish_copy(dst_fd, src_fd, st);
 }
 
